@@ -34,6 +34,8 @@ pub struct Gen<'a> {
     /// tags of the faults injected into the payload being built
     pub faults: Vec<&'static str>,
     bulk_spent: bool,
+    /// keys that only sibling variants of the enum being written accept (candidates for stray members)
+    sibling_keys: Vec<String>,
 }
 
 const WORDS: &[&str] = &[
@@ -149,7 +151,7 @@ pub fn flip_case(s: &str) -> String {
 
 impl<'a> Gen<'a> {
     pub fn new(defs: &'a Defs, rng: Rng, opts: GenOpts) -> Self {
-        Gen { defs, rng, opts, faults: vec![], bulk_spent: false }
+        Gen { defs, rng, opts, faults: vec![], bulk_spent: false, sibling_keys: vec![] }
     }
 
     fn fault(&mut self) -> bool {
@@ -509,7 +511,20 @@ impl<'a> Gen<'a> {
                 }
                 let vd = &e.variants[vi];
                 let mut m = match &vd.fields {
-                    Some(fs) => self.fields(fs, Some(&e.tag), depth),
+                    Some(fs) => {
+                        let saved = std::mem::take(&mut self.sibling_keys);
+                        self.sibling_keys = e
+                            .variants
+                            .iter()
+                            .enumerate()
+                            .filter(|(j, _)| *j != vi)
+                            .flat_map(|(_, v)| v.fields.iter().flatten().filter(|f| !f.skip).map(|f| f.key.clone()))
+                            .filter(|k| !fs.iter().any(|f| f.key == *k || f.ident == *k))
+                            .collect();
+                        let m = self.fields(fs, Some(&e.tag), depth);
+                        self.sibling_keys = saved;
+                        m
+                    }
                     None => {
                         // a unit variant ignores every other member: zero to three strays
                         let mut v = vec![];
@@ -611,14 +626,19 @@ impl<'a> Gen<'a> {
         // unknown keys: random, near misses of real keys, identifiers instead of effective keys
         while (self.rng.next() % 1000) < self.opts.extra_key_pm as u64 && m.len() < 12 {
             let real: Vec<&FieldDef> = fields.iter().filter(|f| !f.skip).collect();
-            let cand = if real.is_empty() || self.rng.chance(1, 3) {
+            let cand = if !self.sibling_keys.is_empty() && self.rng.chance(1, 3) {
+                // a member that belongs to another variant of the same enum
+                let sk = self.sibling_keys.clone();
+                self.rng.pick(&sk).clone()
+            } else if real.is_empty() || self.rng.chance(1, 3) {
                 self.word()
             } else {
                 let f = *self.rng.pick(&real);
-                match self.rng.below(4) {
+                match self.rng.below(5) {
                     0 => flip_case(&f.key),
                     1 => one_edit(&mut self.rng, &f.key),
                     2 => f.ident.clone(),
+                    3 => format!("r#{}", f.ident), // the raw-identifier spelling of the field's name
                     _ => f.key.to_lowercase(),
                 }
             };
